@@ -94,6 +94,8 @@ pub fn uci_talk() -> anyhow::Result<()> {
                         // having announced its move yet: let it finish first, two searches
                         // must never overlap
                         if let Some(thread) = search_thread.take() {
+                            #[cfg(daniel729_chess_verif)]
+                            crate::verif_hooks::point_join("main_join", &thread);
                             thread.join().unwrap();
                         }
 
